@@ -242,3 +242,40 @@ Lemma short_nested_witness :
   render_console false true 100%N d = Some [a; 10; b; c]%N /\
   render_console false false 100%N d = Some [a; 10; c]%N.
 Proof. split; vm_compute; reflexivity. Qed.
+
+(* ------------------------------------------------------------------ the renderer returns
+   (after the fix: commit "console rendering pads margins wider than the padding constant"; before it a
+   margin above 50 columns -- deeply nested em_doc blocks in a help text -- made PADDING[..missing] panic) *)
+Lemma raw_step_cpanic mw s w st : cpanic (raw_step mw s w st) = cpanic st.
+Proof.
+  unfold raw_step.
+  match goal with |- context [if is_nil (rres st) then ?A else ?B] => destruct (if is_nil (rres st) then A else B) as [[r1 cp1] skipit] end.
+  destruct skipit; [reflexivity|].
+  destruct (cp1 <=? cur_margin (margins st))%N;
+    match goal with |- context [if ?c then _ else _] => destruct c end; cbn [cpanic]; rewrite !orb_false_r; reflexivity.
+Qed.
+
+Lemma chunks_step_cpanic full mw cs : forall st, cpanic (chunks_step full mw cs st) = cpanic st.
+Proof.
+  induction cs as [|c cs IH]; intros st; cbn [chunks_step]; [reflexivity|].
+  destruct c as [s w| |].
+  - rewrite IH. apply raw_step_cpanic.
+  - destruct full; [rewrite IH|]; reflexivity.
+  - rewrite IH. reflexivity.
+Qed.
+
+Lemma token_step_cpanic docgen full mw ts st t : cpanic (token_step docgen full mw ts st t) = cpanic st.
+Proof.
+  destruct t as [sty s|b|b]; cbn [token_step].
+  - destruct (Nat.ltb 0 (skip st)); [reflexivity|apply chunks_step_cpanic].
+  - destruct b; reflexivity.
+  - destruct b; reflexivity.
+Qed.
+
+Theorem render_console_returns docgen full mw d : render_console docgen full mw d <> None.
+Proof.
+  unfold render_console, render_state.
+  assert (H : forall ts l st, cpanic (fold_left (token_step docgen full mw ts) l st) = cpanic st).
+  { intros ts l. induction l as [|t l IH]; intros st; cbn [fold_left]; [reflexivity|]. rewrite IH. apply token_step_cpanic. }
+  rewrite H. cbn. discriminate.
+Qed.
